@@ -634,6 +634,28 @@ class _LowerMatch(ast.NodeTransformer):
                 t, b = self._test(pat.patterns[0], subj)      # builtins match the whole subject against their one positional sub-pattern
                 return (isinst if t is None else ast.BoolOp(op=ast.And(), values=[isinst, t])), b
             raise ValueError("positional sub-patterns of a user class")
+        if isinstance(pat, ast.MatchSequence) and sum(isinstance(p_, ast.MatchStar) for p_ in pat.patterns) == 1:
+            k = next(i for i, p_ in enumerate(pat.patterns) if isinstance(p_, ast.MatchStar))
+            before, star, after = pat.patterns[:k], pat.patterns[k], pat.patterns[k + 1:]
+            seq = ast.Call(func=ast.Name(id="isinstance", ctx=ast.Load()), args=[subj, ast.Tuple(elts=[ast.Name(id="tuple", ctx=ast.Load()), ast.Name(id="list", ctx=ast.Load())], ctx=ast.Load())], keywords=[])
+            ln = ast.Compare(left=ast.Constant(len(before) + len(after)), ops=[ast.LtE()], comparators=[ast.Call(func=ast.Name(id="len", ctx=ast.Load()), args=[subj], keywords=[])])
+            tests, binds = [seq, ln], []
+            for i, p_ in enumerate(before):
+                t, b = self._test(p_, ast.Subscript(value=subj, slice=ast.Constant(i), ctx=ast.Load()))
+                if t is not None:
+                    tests.append(t)
+                binds += b
+            for j, p_ in enumerate(after):
+                idx = ast.UnaryOp(op=ast.USub(), operand=ast.Constant(len(after) - j))
+                t, b = self._test(p_, ast.Subscript(value=subj, slice=idx, ctx=ast.Load()))
+                if t is not None:
+                    tests.append(t)
+                binds += b
+            if star.name:
+                hi = None if not after else ast.UnaryOp(op=ast.USub(), operand=ast.Constant(len(after)))
+                sl = ast.Slice(lower=ast.Constant(len(before)) if before else None, upper=hi, step=None)
+                binds.append((star.name, ast.Call(func=ast.Name(id="list", ctx=ast.Load()), args=[ast.Subscript(value=subj, slice=sl, ctx=ast.Load())], keywords=[])))
+            return ast.BoolOp(op=ast.And(), values=tests), binds
         if isinstance(pat, ast.MatchSequence):
             if any(isinstance(p_, ast.MatchStar) for p_ in pat.patterns):
                 raise ValueError("star pattern")
